@@ -50,6 +50,12 @@ def peers(tier):
             out.append(spec)
     if tier == 'quick':
         out = [s for i, s in enumerate(out) if i % 3 == 0]
+    # group exchange as the *first* usable key exchange (so the host-key probes run over it), served from a moduli file that ignores the
+    # requested minimum (round-up style): every measured attribute is still recorded and its drift detected
+    for (kn, keys, kw) in KEY_CONFIGS[1:5]:
+        for g in (768, 1024, 2048):
+            out.append({'kn': kn + '-gexfirst', 'kex': ['kex+odd/name@example.org', 'diffie-hellman-group-exchange-sha256', 'curve25519-sha256'], 'key': keys,
+                        'enc': ENC_VARIANTS[0], 'mac': MAC_VARIANTS[0], 'hk': kw, 'gex': g, 'gex_style': P.LENIENT})
     # legal but unusual shapes: an empty name-list (AEAD-only server without MACs, GSSAPI-only server without host keys, ...)
     for cat in ('kex', 'key', 'enc', 'mac'):
         spec = {'kn': 'empty-' + cat, 'kex': ['curve25519-sha256'], 'key': ['ssh-ed25519'], 'enc': ['aes256-gcm@openssh.com'],
@@ -62,7 +68,8 @@ def peers(tier):
 def make_server(spec):
     hk = P.standard_host_keys(spec['key'], **spec['hk'])
     g = spec.get('gex')
-    gex = ({a: P.GexPolicy([v], P.STRICT) for a, v in g.items()} if isinstance(g, dict) else P.GexPolicy([g], P.STRICT)) if g else None
+    style = spec.get('gex_style', P.STRICT)
+    gex = ({a: P.GexPolicy([v], style) for a, v in g.items()} if isinstance(g, dict) else P.GexPolicy([g], style)) if g else None
     return P.Server(kex=spec['kex'], key=spec['key'], enc=spec['enc'], mac=spec['mac'], enc_c2s=spec.get('enc_c2s'), mac_c2s=spec.get('mac_c2s'),
                     host_keys=hk, gex=gex, banner=b'SSH-2.0-dropbear_2022.83')
 
